@@ -198,8 +198,9 @@ def main():
          "checks": [], "notes": "DESIGN.md section 0 describes what is built (it overrides the plan in sections 1-8). 17 properties are claimed; only C14 is claimed as proof, every other check separates "
                   "discharged obligations from labelled bounded parts in its evidence file. C07, C08, C09 are not applicable (reasons below and in DESIGN.md 0.4). Exit codes: 0 held (UNDECIDED "
                   "lines name obligations left to the bounded stand-in), 1 VIOLATION, 3 checker error. VERIF_SEED selects the sampled inputs (and the interpreter's hash seed); known findings "
-                  "are in known_findings.json; 19 fix: commits in /repo are listed there under `fixed`. Developer tools (not registered): bin/mutcheck, bin/seedmatrix.sh (seeded/), "
-                  "bin/benignmatrix.sh (benign/), bin/seedsweep.sh.",
+                  "are in known_findings.json; 19 fix: commits in /repo are listed there under `fixed`. Developer tools (not registered): bin/mutcheck, bin/seedmatrix.sh / bin/seedmatrix_par.sh (seeded/: 109 changes from seven rounds of "
+                  "independent sub-agents, results in seeded/RESULTS.tsv and DESIGN.md 0.5), bin/benignmatrix.sh (benign/: 24 semantics-preserving refactorings, results in benign/RESULTS.tsv), "
+                  "bin/seedsweep.sh, bin/dev.py (one function: generate and discharge).",
          "not_applicable": []}
     for p in props:
         pid = p["id"]
